@@ -65,7 +65,8 @@ pub fn merging_dataset_json_into_the_dataset_does_not_duplicate_idless_data() {
 /// Cause: src/csv.rs, `impl FromCsv for AnnotationDataSet`, `from_csv_reader` calls
 /// `dataset.build_insert_data(builder, false)` ("safety is off for faster parsing").
 pub fn csv_dataset_with_repeated_idless_rows_is_deduplicated() {
-    let dir = "/tmp/wt-h3c10/target/hunt-h3c10";
+    let dir_owned = format!("{}/target/hunt-h3c10", env!("CARGO_MANIFEST_DIR"));
+    let dir = dir_owned.as_str();
     std::fs::create_dir_all(dir).unwrap();
     let path = format!("{}/dup.dataset.stam.csv", dir);
     std::fs::write(&path, "Id,Key,Value\n,k,v\n,k,v\n").unwrap();
